@@ -9,6 +9,48 @@ BASELINE_OFF = ("cd /repo && /venv/bin/python -m pytest -ra -q -p no:cacheprovid
 
 # pid -> (technique, level text, level note, design ref)
 CHECKS = {
+    "C01": ("hypothesis PBT, type-directed program generator; differential vs independent reference interpreter",
+            "Well-typed programs built by construction over the supported core instruction set x inputs x environments "
+            "are run by pytezos and by a reference interpreter written from the Michelson reference; final stacks (types "
+            "and optimized Micheline, slot by slot) or the failure kind and FAILWITH payload must agree.",
+            "The reference interpreter is mine; it is validated at the start of every run on the 193 Octez opcode scripts "
+            "and their recorded expectations shipped in tests/. Lambdas are compared by their Micheline code. "
+            "Unsupported instruction variants (bytes bitwise ops, sapling, OPEN_CHEST) are excluded.", "9/C01"),
+    "C02": ("hypothesis PBT, reference static typechecker vs runtime value classes (deep walk)",
+            "Same program family as C01 plus contracts through Interpreter.run_code: every final stack slot has the "
+            "statically computed type and every nested component instance's class agrees with its parent's type "
+            "argument; returned storage parses at the declared storage type.",
+            "Static types come from the generator's own typechecker (gen_programs.types_after), cross-checked against "
+            "the reference interpreter's result types.", "9/C02"),
+    "C12": ("hypothesis PBT, round-trip oracle through Python objects in both directions + layout determinism",
+            "Annotated storage/parameter types with named/unnamed/duplicate/colliding field names, enums, options, "
+            "collections with composite keys, big_map literals: from_python_object(to_python_object(v)) == v in "
+            "optimized Micheline, ContractData / ContractEntrypoint decode-encode both ways, field names distinct and "
+            "deterministic.",
+            "Nested option (Some None) is a recorded known finding (C12-nested-option) and is excluded by a narrow "
+            "signature; search continues behind it.", "9/C12"),
+    "C13": ("exhaustive small or-trees x annotation placements + hypothesis-sampled deeper trees vs reference entrypoint table",
+            "Every or-tree shape with <=4 leaves and every annotation placement over a name pool, plus sampled deeper "
+            "trees: list_entrypoints == reference table, duplicates rejected, to_parameters/from_parameters mutual "
+            "inverses for every leaf path and every listed entrypoint.",
+            "Reference entrypoint rules validated against the 20 recorded node answers in tests/contract_tests/*/"
+            "__entrypoints__.json. Several (entrypoint, argument) answers can be right: validity predicate.", "9/C13"),
+    "C14": ("hypothesis rule-based state machine vs Python dict/set model with reference order",
+            "Histories of UPDATE / GET_AND_UPDATE / MEM / GET / SIZE / MAP / ITER / literal construction over sets and "
+            "maps with leaf and composite key types: after every step the collection is strictly increasing in the "
+            "reference order and equals the model.",
+            "Reference order shared with C03.", "9/C14"),
+    "C15": ("hypothesis-generated operation histories through run_code against a fake node vs layered dict model",
+            "Histories of big_map GET/MEM/UPDATE/GET_AND_UPDATE across chains of calls with on-chain content served by "
+            "an in-memory node: observations and the lazy diff applied as a mapping equal the model; key hashes "
+            "recomputed independently.",
+            "The node is simulated (vlib/fake_node.py subclassing RpcNode); the script-expression hash uses the "
+            "reference legacy PACK validated on recorded key hashes.", "9/C15"),
+    "C20": ("hypothesis PBT of ticket programs, step-wise differential vs reference ticket semantics + conservation invariants",
+            "Programs over TICKET/READ_TICKET/SPLIT_TICKET/JOIN_TICKETS with stack shuffling and DUP attempts, each "
+            "instruction run as its own step: stacks equal the reference's, no zero-amount ticket anywhere, total "
+            "amount per (ticketer, contents) conserved, DUP of ticket-bearing values fails, results typed ticket T.",
+            "Reference ticket rules from the Lima changelog / Michelson reference.", "9/C20"),
     "C31": ("hypothesis PBT, exhaustive over list length; differential vs independent Merkle reference",
             "Every list length in the tier's range is enumerated; leaves, list-of-lists, predecessor and round are "
             "hypothesis-generated; the result is compared with an independent Merkle/base58 implementation. "
